@@ -121,3 +121,18 @@ Section ChainInduct.
     | ES _ l => gset_lay _ _ _ t l
     end.
 End ChainInduct.
+
+Notation family_ok seq mix k nq nqr :=
+  (family_ok_body seq (blkn mix) (lvl_in mix k) (rootin mix k) (o_leaf mix k) (o_blk seq mix k nq) nq nqr).
+
+(* the families for which the check holds over binary32 (Proofs/BlockChainInductF32.v), with their rate r: every node below the root is
+   asked r times (the root once), i.e. r * depth + 1 compute_cached_layout calls in all.  k as in `chain_avail` (every k >= 2 is
+   min-content x max-content).  Not in the table: max-width:120px under max-content / 300 x 200 (there the check fails: see notes/w9a.md) *)
+Definition chain_rate (mix : ChainMix) (k : nat) : option nat :=
+  match mix, k with
+  | CPlain, 1%nat => Some 1%nat
+  | CPlain, _ => Some 2%nat
+  | CFixed, _ => Some 1%nat
+  | CCapped, S (S _) => Some 2%nat
+  | CCapped, _ => None
+  end.
